@@ -82,7 +82,56 @@ def int_case(draw, tier):
         v = draw(st.sampled_from([hi * 2 + 1, lo * 2 - 2, 1 << (n + 7), -(1 << (n + 7)), hi + (1 << n), lo - (1 << n)]))
     else:
         v = draw(st.integers(lo - (1 << n), hi + (1 << n)))
-    return {'name': name, 'n': n, 'v': v, 'route': draw(st.sampled_from(ROUTES)), 'cls': draw(cls_st), 'as_str': draw(st.integers(0, 5)) == 0}
+    prelude = draw(st.lists(st.sampled_from(PRELUDES), max_size=3)) if draw(st.integers(0, 2)) == 0 else []
+    return {'name': name, 'n': n, 'v': v, 'route': draw(st.sampled_from(ROUTES)), 'cls': draw(cls_st), 'as_str': draw(st.integers(0, 5)) == 0, 'prelude': prelude}
+
+
+# things done with the same value / the same dtype just before the attempt under test: accepting or rejecting must not depend on them
+PRELUDES = ['wider', 'scaled_build', 'scaled_array', 'other_sign', 'limit_ok', 'same_attempt', 'array_same', 'scaled_array_fit', 'token_same', 'dtype_obj_same']
+
+
+def run_prelude(bs, what, name, n, v, route, clsname):
+    lo, hi = codecs.int_range(name, n)
+    step = 8 if canon(name) not in ('uint', 'int') else 3
+    other = {'uint': 'int', 'int': 'uint', 'u': 'i', 'i': 'u'}.get(name, name.replace('uint', 'int') if name.startswith('uint') else name.replace('int', 'uint'))
+    if what == 'wider':
+        attempt(lambda: cls_of(clsname)(**{name: v}, length=n + 2 * step))
+        attempt(lambda: bs.Array(f'{name}{n + 2 * step}', [v]))
+    elif what == 'scaled_build':
+        for sc in (2, 4, 0.5):
+            attempt(lambda: bs.Dtype(name, n, scale=sc).build(v))
+    elif what == 'scaled_array':
+        for sc in (4, 16):
+            attempt(lambda: bs.Array(bs.Dtype(name, n, scale=sc), [v, 0]))
+    elif what == 'scaled_array_fit':
+        # a scale for which the value does fit
+        sc = 1 << max(1, (abs(v).bit_length() - max(n - 2, 1)))
+        a = attempt(lambda: bs.Array(bs.Dtype(name, n, scale=sc), [v]))
+        if not is_raised(a):
+            attempt(a.append, v)
+    elif what == 'other_sign':
+        attempt(lambda: cls_of(clsname)(**{other: v}, length=n))
+        attempt(lambda: bs.Array(f'{other}{n}', [v]))
+    elif what == 'limit_ok':
+        for w in (lo, hi):
+            attempt(lambda: cls_of(clsname)(**{name: w}, length=n))
+            attempt(lambda: bs.Array(f'{name}{n}', [w]))
+    elif what == 'same_attempt':
+        if not route.startswith('array_'):
+            do_route(bs, route, name, n, v, str(v), clsname)
+        else:
+            attempt(lambda: bs.Array(f'{name}{n}', [v]))
+    elif what == 'array_same':
+        a = bs.Array(f'{name}{n}', [0])
+        attempt(a.append, v)
+        attempt(a.__setitem__, 0, v)
+    elif what == 'token_same':
+        attempt(lambda: bs.Bits(f'{name}:{n}={v}'))
+        attempt(lambda: bs.pack(f'{name}:{n}', v))
+    elif what == 'dtype_obj_same':
+        d = bs.Dtype(name, n)
+        attempt(d.build, v)
+        attempt(lambda: bs.Array(d, [v]))
 
 
 def run_int(case):
@@ -92,6 +141,8 @@ def run_int(case):
     lo, hi = codecs.int_range(name, n)
     nt = min(abs(v - lo), abs(v - hi)) <= 1
     pv = str(v) if case['as_str'] and route in ('kw_length', 'kw_name', 'dtype_build') else v
+    for what in case.get('prelude', ()):
+        run_prelude(bs, what, name, n, v, route, case['cls'])
     if route.startswith('array_'):
         one = 1 if hi >= 1 else 0
         z = encode(name, 0, n)
